@@ -38,7 +38,15 @@ def _worker(args):
                 rep.count('harness-recursion-skipped')
             except Exception as e:
                 tb = traceback.format_exc()
-                raise RuntimeError('case %d of %s failed in the harness: %s\n%s' % (i, prop, e, tb[-1500:])) from None
+                frames = traceback.extract_tb(e.__traceback__)
+                src = os.path.join(common.REPO, 'src')
+                if any(fr.filename.startswith(src) or fr.filename in ('', '<string>') for fr in frames):
+                    # the exception comes out of the code under test (or of a script it generated) at a
+                    # place where the harness expected none: a failing input, reported as one
+                    rep.violation({'kind': 'an exception escaped from the code under test', 'case': i,
+                                   'error': '%s: %s' % (type(e).__name__, e), 'traceback': tb[-2500:]})
+                else:
+                    raise RuntimeError('case %d of %s failed in the harness: %s\n%s' % (i, prop, e, tb[-1500:])) from None
             finally:
                 signal.setitimer(signal.ITIMER_REAL, 0)
             if len(rep.violations) >= stop_after:
